@@ -138,6 +138,35 @@ confined (const mslot_t *d, const uint8_t *pre, const uint8_t *post_f, const uin
     return -1;
 }
 
+/* does this fill_boxes / fill_rectangles request qualify for the direct-fill
+ * shortcut (operator reducible to SRC, colour expressible as a pixel of the
+ * destination format, no alpha map, no accessors)?  There every allocation is
+ * checked by the function itself, whereas the compositing it otherwise
+ * delegates to is void and may skip work silently. */
+static int
+direct_fill_eligible (machine_t *m, const sim_op_t *op)
+{
+    const int64_t *a = op->a + M_PREFIX;
+    int n = op->n - M_PREFIX;
+    pixman_op_t pop;
+    const mslot_t *d;
+    if (op->kind != MOP_FILL_BOXES && op->kind != MOP_FILL_RECTS) return 0;
+    if (n < 3) return 0;
+    pop = sim_ops[sim_mod (a[0], sim_n_ops)];
+    d = &m->img[sim_mod (a[1], M_NIMG)];
+    if (!(pop == PIXMAN_OP_SRC || pop == PIXMAN_OP_CLEAR || (pop == PIXMAN_OP_OVER && sim_mod (a[2], 65536) == 0xffff))) return 0;
+    if (d->has_alpha >= 0 || d->accessors) return 0;
+    switch (d->fmt)
+    {
+    case PIXMAN_a8r8g8b8: case PIXMAN_x8r8g8b8: case PIXMAN_a8b8g8r8: case PIXMAN_x8b8g8r8:
+    case PIXMAN_b8g8r8a8: case PIXMAN_b8g8r8x8: case PIXMAN_r8g8b8a8: case PIXMAN_r8g8b8x8:
+    case PIXMAN_r5g6b5: case PIXMAN_b5g6r5: case PIXMAN_a8: case PIXMAN_a1:
+	return 1;
+    default:
+	return 0;
+    }
+}
+
 typedef struct { int i, k, mode, entry; } plan_t;
 
 static uint64_t
@@ -302,6 +331,19 @@ lockstep (const scenario_t *sc, const plan_t *pl, result_t *res, long *fired_out
 		int slot = dd ? s0.dst2_slot : d;
 		uint8_t *p = dd ? pre2 : pre;
 		if (slot < 0) continue;
+		if (fired && s0.has_status && sf.ret && s0.ret && machine_compare_slot (m0, mf, slot) >= 0)
+		{
+		    /* a call WITH a status result said TRUE although an allocation failed in it:
+		     * then it must have done its work ("other functions with a status result
+		     * report failure"; only void drawing functions may skip work silently) */
+		    char st[128];
+		    /* the driver turns the address of the failing allocation's caller into a function name */
+		    snprintf (st, sizeof st, "%s%s@%p", mop_names[op0.kind], direct_fill_eligible (mf, &op0) ? "+direct-fill" : "", sim_alloc.first_fail_site);
+		    sim_violation (res, "C15", "C15/success-reported-but-work-skipped", st,
+				   "op %d (%s) returned TRUE although allocation k=%d (mode %d) failed in it, and slot %d differs from the fault-free run: work was skipped silently",
+				   j, mop_names[op0.kind], pl->k, pl->mode, slot);
+		    break;
+		}
 		if (fired)
 		{
 		    int x0 = 0, y0 = 0, x1 = 0, y1 = 0;
